@@ -218,7 +218,13 @@ func (m *l0Machine) nextTag(r int) sim.Val {
 // nestedVal draws a small container value (object or array, sometimes two levels).
 func (m *l0Machine) nestedVal(rt *rapid.T, label string) sim.Val {
 	k := rapid.SampledFrom(keyPoolPlain[:3]).Draw(rt, label+".nk")
-	switch rapid.IntRange(0, 3).Draw(rt, label+".nshape") {
+	switch rapid.IntRange(0, 4).Draw(rt, label+".nshape") {
+	case 4:
+		// two sibling containers under keys that are different strings but equal under some folding (letter case,
+		// unicode composition, trailing blank): the order in which the members of one value are visited decides
+		// their identities and has to be the same on every replica for ANY two distinct keys
+		pair := rapid.SampledFrom([][2]string{{"id", "ID"}, {"a", "A"}, {"\u00e9", "e\u0301"}, {"b", "b "}, {"c", "C"}}).Draw(rt, label+".confusable")
+		return sim.Obj(sim.KV{K: pair[0], V: sim.Arr(genPrim(rt, label+".np0"))}, sim.KV{K: pair[1], V: sim.Arr(genPrim(rt, label+".np1"))}, sim.KV{K: k + "z", V: sim.Obj(sim.KV{K: k, V: genPrim(rt, label+".np2")})})
 	case 0:
 		return sim.Obj(sim.KV{K: k, V: genPrim(rt, label+".np")})
 	case 1:
@@ -674,6 +680,25 @@ func (m *l0Machine) gen(rt *rapid.T) l0Action {
 				continue
 			}
 			tx.Calls = append(tx.Calls, call)
+		}
+		if m.cfg.Kind == sim.Document && !m.cfg.Tagged && !m.cfg.ArrayOnly && rapid.IntRange(0, 3).Draw(rt, "txpatch") == 0 {
+			// a unit of several operations INSIDE the transaction of the user: PatchByJSON towards the current
+			// value with two more members (>= 2 patch operations, issued as a nested unit)
+			if top, ok := view.(map[string]interface{}); ok {
+				tgt := map[string]interface{}{}
+				for k, v := range top {
+					tgt[k] = v
+				}
+				tgt["pj1"], tgt["pj2"] = m.steps, fmt.Sprintf("p%d", m.steps)
+				if b, err := json.Marshal(tgt); err == nil {
+					pc := sim.Call{M: "PatchByJSON", JSON: string(b)}
+					if rapid.Bool().Draw(rt, "txpatchfirst") {
+						tx.Calls = append([]sim.Call{pc}, tx.Calls...)
+					} else {
+						tx.Calls = append(tx.Calls, pc)
+					}
+				}
+			}
 		}
 		k = len(tx.Calls)
 		tx.FailAt = -1
